@@ -40,8 +40,12 @@ func VerifC50_S3URL() {
 	}
 	verifrt.Reach("password")
 	verifrt.Assert(strings.HasPrefix(out, "s3:http://"), "displayed location lost its scheme")
-	verifrt.Assert(!strings.Contains(out, ":"+pw+"@"), "displayed s3 location contains the decoded password")
-	verifrt.Assert(!strings.Contains(out, url.UserPassword("", pw).String()+"@"), "displayed s3 location contains the escaped password")
+	auth := strings.TrimPrefix(out, "s3:http://")
+	if i := strings.IndexAny(auth, "/?#"); i >= 0 {
+		auth = auth[:i] // only the authority part can hold the password; path, query and fragment are displayed as they are
+	}
+	verifrt.Assert(!strings.Contains(auth, ":"+pw+"@"), "displayed s3 location contains the decoded password")
+	verifrt.Assert(!strings.Contains(auth, url.UserPassword("", pw).String()+"@"), "displayed s3 location contains the escaped password")
 	if u.Host == "h" {
 		verifrt.Assert(!strings.Contains(out, pass+"@h/"), "displayed s3 location contains the raw password")
 	}
